@@ -351,6 +351,7 @@ func (nfs *Nfs) NFSPROC3_WRITE(args nfstypes.WRITE3args) nfstypes.WRITE3res {
 		reply.Status = nfstypes.NFS3_OK
 		reply.Resok.Count = nfstypes.Count3(count)
 		reply.Resok.Committed = args.Stable
+		reply.Resok.Verf = nfs.verf
 		reply.Resok.File_wcc.After.Attributes_follow = true
 		reply.Resok.File_wcc.After.Attributes = ip.MkFattr()
 	} else {
@@ -901,6 +902,7 @@ func (nfs *Nfs) NFSPROC3_COMMIT(args nfstypes.COMMIT3args) nfstypes.COMMIT3res {
 	ok := op.CommitFh()
 	if ok {
 		reply.Status = nfstypes.NFS3_OK
+		reply.Resok.Verf = nfs.verf
 	} else {
 		errRet(op, &reply.Status, nfstypes.NFS3ERR_IO)
 	}
